@@ -872,6 +872,14 @@ def _handle_witness(ob, enc, c, ct, zc, zbase, v, label, res, cache, refine=None
             if rep3['reproduced']:
                 rep, env = rep3, env3
                 rep['note'] = 'abstract solver witness concretised by numeric refinement of the same terms'
+    if not rep['reproduced'] and refine is not None and any('#' in n for n in T.free_vars(list(refine[0]) + [refine[1]])):
+        # the path contains stub outputs (a root, a quadrature): the solver chose its own value for them, the real
+        # numerics return another, so the witness inputs land on a different path.  Look near the witness for inputs at
+        # which the REAL code reproduces the violation (a handful of replays, bounded in time).
+        got = _refine_by_replay(ob, env, c.label)
+        if got is not None:
+            env, rep = got
+            rep['note'] = 'solver witness (stub values chosen by the solver) concretised by replays near it on the real code'
     entry = {'obligation': ob.id, 'label': c.label, 'claim': label, 'assertion': T.show(ct, 400),
              'witness': {k: str(val) for k, val in model.items() if '!' not in k},
              'witness_float': env, 'replay': rep}
@@ -886,6 +894,29 @@ def _handle_witness(ob, enc, c, ct, zc, zbase, v, label, res, cache, refine=None
             # exact encoding but the float replay disagrees (different branch at a boundary witness, a different
             # root returned by the real root finder, or cancellation): reported, never counted as discharged
             res['inconclusive'].append({'label': label, 'reason': entry['reason'], 'unreproduced_exact': True})
+
+
+def _refine_by_replay(ob, env, label, budget_s=30.0, tries=400):
+    import random
+    rnd = random.Random(20260927)
+    t0 = time.time()
+    for i in range(tries):
+        if time.time() - t0 > budget_s:
+            break
+        sc = (0.1, 0.3, 0.8, 1.5)[i % 4]
+        e = {}
+        for k, v in env.items():
+            if isinstance(v, float) and v != 0 and k not in ('PI', 'EULER') and rnd.random() < 0.5:
+                e[k] = v * math.exp(rnd.gauss(0.0, sc))
+            else:
+                e[k] = v
+        t1 = time.time()
+        rep = replay_claim(ob, e, label, {})
+        if rep.get('reproduced'):
+            return e, rep
+        if time.time() - t1 > 5.0:
+            break                       # slow real numerics: not worth a search
+    return None
 
 
 def _refine_witness(terms, ct, env, budget_s=10.0, tries=6000):
